@@ -639,12 +639,16 @@ class CCodeGenerator:
     def gen_do_while(self, stmt: statements.DoWhile) -> None:
         """Generate do-while-statement code"""
         body_block = self.builder.new_block()
+        condition_block = self.builder.new_block()
         final_block = self.builder.new_block()
         self.break_block_stack.append(final_block)
-        self.continue_block_stack.append(body_block)
+        # A continue statement proceeds with the evaluation of the condition:
+        self.continue_block_stack.append(condition_block)
         self.builder.emit_jump(body_block)
         self.builder.set_block(body_block)
         self.gen_stmt(stmt.body)
+        self.builder.emit_jump(condition_block)
+        self.builder.set_block(condition_block)
         self.gen_condition(stmt.condition, body_block, final_block)
         self.builder.set_block(final_block)
         self.break_block_stack.pop()
